@@ -33,6 +33,8 @@ def plan(tier, seed):
 	nsh = 8 if tier == 'quick' else 48
 	for s in range(nsh):
 		tasks.append(('t_consensus', dict(N=N, shard=s, nshards=nsh)))
+	for start in range(len(taxo.WORLDS)):
+		tasks.append(('t_persisted', dict(start=start, depth=3 if tier == 'quick' else 4)))
 	for si in range(len(DEEP_SHAPES)):
 		tasks.append(('t_consensus_deep', dict(si=si, maxm=4 if tier == 'quick' else 5)))
 	if tier == 'quick':
@@ -96,6 +98,59 @@ DEEP_SHAPES = [
 	(None, 0, 1, 2, None, 4, 5, 6),              # two chains of 4
 	(None, 0, 1, 2, 3, 1, 5, 6, 7),              # long arm off a high node
 ]
+
+
+def t_persisted(start, depth):
+	"""Strict classification over histories of persisted databases that share primary keys / keys / names but differ in shape and thresholds,
+	with threshold edits in between, all in one process (see C03.t_persisted): remembered per-taxon state shows as a wrong consensus."""
+	from mc import fixtures
+	import os
+	sh = Shard()
+	nw = len(taxo.WORLDS)
+	with fixtures.workdir('c10p') as d:
+		paths = []
+		for j, w in enumerate(taxo.WORLDS):
+			p = os.path.join(d, f'w{j}.gdb')
+			taxo.write_world(p, w)
+			paths.append(p)
+		events = [('open', j) for j in range(nw)] + [('edit', 0), ('edit', 1)]
+		dvecs = list(itertools.product(DISTS, repeat=3))
+		for hist in itertools.product(events, repeat=depth - 1):
+			hist = (('open', start),) + hist
+			cur = None
+			sessions = []
+			try:
+				for step, (op, arg) in enumerate(hist):
+					if op == 'open':
+						w = taxo.WORLDS[arg]
+						session, taxa, genomes = taxo.open_world(paths[arg])
+						sessions.append(session)
+						cur = dict(parent=w['parent'], thr=list(w['thr']), placement=w['placement'], taxa=taxa, genomes=genomes)
+					else:
+						thr = cur['thr']
+						thr = thr[1:] + thr[:1] if arg == 0 else [None if t is None else min(1.0, t + 0.25) for t in thr]
+						for t_obj, v in zip(cur['taxa'], thr):
+							t_obj.distance_threshold = v
+						cur['thr'] = thr
+					if all(t is None for t in cur['thr']):
+						continue
+					for dists in dvecs:
+						before, kept = sh.nviol, len(sh.violations)
+						check_classify(sh, cur['parent'], tuple(cur['thr']), cur['taxa'], cur['placement'], dists, cur['genomes'])
+						if sh.nviol != before:
+							if len(sh.violations) > kept:
+								sh.violations[-1]['case']['history'] = [list(h) for h in hist[:step + 1]]
+								sh.violations[-1]['kind'] = 'persisted-' + sh.violations[-1]['kind']
+							raise StopIteration
+					sh.count('persisted_steps')
+			except StopIteration:
+				pass
+			finally:
+				for s_ in sessions:
+					s_.close()
+					s_.get_bind().dispose()
+	sh.sample(dict(family='persisted', history=[list(h) for h in hist], worlds=nw))
+	return sh
 
 
 def t_consensus_deep(si, maxm):
@@ -193,12 +248,15 @@ def t_classify(n, gmax, dmode, shard, nshards):
 
 
 def finalize(agg, tier):
-	for c in ('conflict', 'no_common_ancestor', 'consensus_not_a_member', 'classify_conflict', 'classify_no_common_ancestor', 'primary_not_closest', 'deep_shape_cases'):
+	for c in ('conflict', 'no_common_ancestor', 'consensus_not_a_member', 'classify_conflict', 'classify_no_common_ancestor', 'primary_not_closest', 'deep_shape_cases', 'persisted_steps'):
 		agg.require(c, 50)
 
 
 def replay(case, kind=None):
 	sh = Shard()
+	if 'history' in case:
+		vs = t_persisted(case['history'][0][1], len(case['history'])).violations
+		return [v for v in vs if v['case'].get('history') == case['history']][:1] or vs[:1]
 	parent = tuple(case['parent'])
 	taxa = taxo.build_taxa(parent)
 	if 'order' in case:
